@@ -107,6 +107,15 @@ func stdReads(ids []uint64, absent uint64) []ReadSpec {
 			ReadSpec{Kind: "query", Query: fmt.Sprintf(`{"bodyid":[%d,%d,%d]}`, ids[1], absent, ids[0]), OnlyID: true, Fm: []string{"a"}})
 	}
 	rs = append(rs, ReadSpec{Kind: "query", Query: `[]`})
+	if len(ids) > 1 {
+		// OR lists whose alternatives pin body ids, pin them together with other fields, or not at all
+		rs = append(rs,
+			ReadSpec{Kind: "query", Query: fmt.Sprintf(`[{"bodyid":[%d,%d],"a":1},{"s":"x"}]`, ids[0], absent)},
+			ReadSpec{Kind: "query", Query: fmt.Sprintf(`[{"bodyid":%d,"zz":"exists/0"},{"a":"exists/1"}]`, ids[1]), OnlyID: true},
+			ReadSpec{Kind: "query", Query: fmt.Sprintf(`[{"bodyid":%d},{"bodyid":[%d],"s":"re/."},{"a":[1,2,7]}]`, ids[0], ids[1]), Fm: []string{"a", "s"}, Show: 1},
+			ReadSpec{Kind: "query", Query: fmt.Sprintf(`{"bodyid":[%d,%d],"a":"exists/1"}`, ids[0], ids[1])},
+			ReadSpec{Kind: "query", Query: fmt.Sprintf(`[{"bodyid":%d,"a":1},{"bodyid":%d}]`, ids[0], ids[1]), OnlyID: true})
+	}
 	return rs
 }
 
@@ -147,6 +156,95 @@ func cfgPhases(ids []uint64, withBranch bool, static []VRef) []PhaseSpec {
 }
 
 func onB(op OpSpec) OpSpec { op.Branch = true; return op }
+
+// ---- queries: OR lists of 1-4 alternatives, each an AND of 1-3 constraints of every kind ----
+
+// values that stored fields are likely to hold (so that constraints match some annotations)
+var queryScalars = []string{`1`, `2`, `0`, `-3`, `7`, `4`, `5`, `18446744073709551615`, `-1`, `1.5`, `2.25`,
+	`"x"`, `"y"`, `"xy"`, `""`, `"a<b"`, `"é"`, `"re/a"`, `"bob"`, `true`, `null`}
+var queryRegexps = []string{`"re/^x"`, `"re/y$"`, `"re/."`, `"re/^u[0-9]"`, `"re/("`, `"re/^$"`, `"re/2020"`}
+var queryFields = []string{"a", "a", "b", "s", "s", "f", "n", "user", "c", "zz", "a_user", "s_user", "a_time"}
+
+func genBodyidConstraint(r *lib.Rand, ids []uint64, absent uint64) string {
+	pool := append([]uint64{absent}, ids...)
+	if r.Chance(0.4) {
+		return fmt.Sprintf(`"bodyid":%d`, pool[r.Intn(len(pool))])
+	}
+	n := 1 + r.Intn(3)
+	xs := []string{}
+	for i := 0; i < n; i++ {
+		xs = append(xs, fmt.Sprint(pool[r.Intn(len(pool))]))
+	}
+	return `"bodyid":[` + strings.Join(xs, ",") + `]`
+}
+
+func genFieldConstraint(r *lib.Rand) string {
+	f := pickS(r, queryFields)
+	switch x := r.Intn(10); {
+	case x < 4: // equality with one value
+		return fmt.Sprintf(`"%s":%s`, f, pickS(r, queryScalars))
+	case x < 6: // any of a list of values (numbers, strings, or both kinds mixed)
+		n := 1 + r.Intn(3)
+		xs := []string{}
+		for i := 0; i < n; i++ {
+			if r.Chance(0.15) {
+				xs = append(xs, pickS(r, queryRegexps))
+			} else {
+				xs = append(xs, pickS(r, queryScalars[:len(queryScalars)-2]))
+			}
+		}
+		return fmt.Sprintf(`"%s":[%s]`, f, strings.Join(xs, ","))
+	case x < 8: // regular expression
+		return fmt.Sprintf(`"%s":%s`, f, pickS(r, queryRegexps))
+	default: // existence
+		return fmt.Sprintf(`"%s":"exists/%d"`, f, r.Intn(2))
+	}
+}
+
+// one alternative: bodyid only, bodyid with other fields, or fields only
+func genAlternative(r *lib.Rand, ids []uint64, absent uint64) string {
+	parts := []string{}
+	seen := map[string]bool{}
+	add := func(c string) {
+		k := c[:strings.Index(c, ":")]
+		if !seen[k] {
+			seen[k] = true
+			parts = append(parts, c)
+		}
+	}
+	switch r.Intn(4) {
+	case 0:
+		add(genBodyidConstraint(r, ids, absent))
+	case 1:
+		add(genBodyidConstraint(r, ids, absent))
+		add(genFieldConstraint(r))
+		if r.Chance(0.3) {
+			add(genFieldConstraint(r))
+		}
+	default:
+		for i := 0; i < 1+r.Intn(3); i++ {
+			add(genFieldConstraint(r))
+		}
+	}
+	return "{" + strings.Join(parts, ",") + "}"
+}
+
+func genQuery(r *lib.Rand, ids []uint64, absent uint64) ReadSpec {
+	n := 1 + r.Intn(4)
+	alts := []string{}
+	for i := 0; i < n; i++ {
+		alts = append(alts, genAlternative(r, ids, absent))
+	}
+	q := "[" + strings.Join(alts, ",") + "]"
+	if n == 1 && r.Bool() {
+		q = alts[0] // a single object instead of a one-element list
+	}
+	rs := ReadSpec{Kind: "query", Query: q, OnlyID: r.Chance(0.3), Show: r.Intn(4)}
+	if r.Chance(0.3) {
+		rs.Fm = []string{pickS(r, fieldPool), pickS(r, fieldPool)}
+	}
+	return rs
+}
 
 func post(id uint64, body string) OpSpec { return OpSpec{Kind: "post", Key: id, Body: body} }
 func del(id uint64) OpSpec              { return OpSpec{Kind: "delete", Key: id} }
@@ -409,6 +507,19 @@ func genCase(r *lib.Rand, name string, thorough bool) CaseSpec {
 			reads = append(reads, ReadSpec{Kind: "query", Query: fmt.Sprintf(`{"%s":%s}`, f, v), Show: r.Intn(4), OnlyID: r.Chance(0.3)})
 		case 3:
 			reads = append(reads, ReadSpec{Kind: "all", Fm: []string{pickS(r, fieldPool), pickS(r, fieldPool) + "_user"}, Show: r.Intn(4)})
+		}
+	}
+	// generated OR queries (also read of the named versions of the phases: branch head, UUID dbs)
+	var qs []ReadSpec
+	for i := 0; i < 14; i++ {
+		qs = append(qs, genQuery(r, ids, absent))
+	}
+	reads = append(reads, qs...)
+	for pi := range phases {
+		for _, ref := range []VRef{{N: -1}, {B: true, N: -1}, {N: 0}} {
+			for _, q := range qs[:4] {
+				phases[pi].Reads = append(phases[pi].Reads, RefRead{Ref: ref, Read: q})
+			}
 		}
 	}
 	return CaseSpec{Name: name, Ops: ops, Reads: reads, Phases: phases}
